@@ -127,6 +127,15 @@ CLAIMED = {
              'names in numeric positions, wrong operand counts, mixed-case mnemonics; the image must carry the encoding of the '
              'first accepting candidate in the documented order, or the statement must be rejected when none accepts.',
         note='Trusted: acceptance table and priority classes in vf/oracles/c13.py; ties inside one priority class are DONT_CARE.'),
+    'C16': dict(
+        category='exploration', design_ref='DESIGN.md §3 C16',
+        technique='runtime monitoring: independent format decoders (Intel HEX, hex dump, compact hex, listing) vs the layout '
+                  'model map and the image of real CLI runs; relational check on the repository\'s example programs',
+        text='Sparse / structured / multi-file / tiny-address-space generated programs are assembled once per format; each '
+             'decoded address->byte map must equal the model memory map (muted lines contribute to none), the image must equal '
+             'the model image, and the listing must show every unmuted statement exactly once with its model address and bytes. '
+             'The example programs are checked relationally (all formats and the image agree).',
+        note='Trusted: vf/model/formats.py decoders (format assumptions in evidence.assumptions), vf/model/layout.py.'),
     'C17': dict(
         category='exploration', design_ref='DESIGN.md §3 C17',
         technique='runtime monitoring: metamorphic file-splitting oracle (split == unsplit == layout model) plus zone/scope '
